@@ -29,6 +29,18 @@ CLAIMED = {
          "Exhaustive enumeration, per decoder key read from the live registries, of payload faults x detail faults x message-type values x multi-cause children x carrier positions x leaf/wrapper form (one simulated delivery per case), plus seeded sequences of wire faults (payload/details/message type/hostile strings/family swap) and protobuf-level byte fuzz on valid generated messages; oracle: DecodeError returns non-nil without panicking and the result survives every verb (panics recovered by fmt are detected in the output), redaction, every accessor, report building and re-encoding. The enumerated part is complete for the stated product; the seeded part is sampling.",
          "5/C05", "trusted: the exemplar table (one valid wire node per family, obtained by encoding real values) defines 'right payload type'; inputs that are not structurally complete (also inside payloads resolving to EncodedError) are discarded as the property's precondition says; gogo's global proto registry cannot be partitioned (DESIGN.md 8.3)",
          "deterministic simulation with fault injection: exhaustive wire-fault enumeration per registered decoder + seeded fault sequences and byte fuzz through the simulated transport"),
+ "C03": ("exploration",
+         "Seeded deterministic simulation with tainted inputs: every string entering through a channel the property lists as unsafe carries a unique token (hostile alphabet); the error is observed locally and after every hop over knowing and unknowing processes; invariant: no unsafe token occurs in Redact()ed %v/%+v renderings, GetAllSafeDetails / per-node GetSafeDetails, reportable payloads, type names and marks on the wire at any nesting level (nested payloads unpacked), the Sentry event JSON and extras. Sampling, not proof.",
+         "5/C03", "trusted: the channel table of the generator (which constructor slot is an unsafe channel; slots the statement does not list are neutral and not checked); substring search for alphanumeric tokens",
+         "deterministic simulation: taint-token tracking through the simulated cluster with per-delivery leak invariants"),
+ "C06": ("exploration",
+         "Seeded deterministic simulation observing each generated error in its local, decoded and opaque states (the latter two produced by hops through knowing and unknowing processes); invariants: redactable %v/%s/%+v and Sprint have balanced, non-nested markers balanced on every line (hostile strings); for regular strings StripMarkers(redactable) equals the fmt rendering via Formattable; %q/%x/%X through redact expose no unsafe token, plain or hex, outside markers. Sampling, not proof.",
+         "5/C06", "trusted: marker scanner; 'refused' is read as 'no unsafe content outside markers' since the library documents refusal as %!verb(type)",
+         "deterministic simulation: state-producing cluster simulation with per-delivery rendering invariants"),
+ "C12": ("exploration",
+         "Seeded deterministic simulation with tainted inputs (regular alphabet): every string entering through a channel the library declares safe carries a unique token; observed locally and after every hop between knowing processes; invariant: every safe token (not under a Mark reference), every layer's type name and the innermost function of every captured stack occurs in the Sentry event/extras or GetAllSafeDetails. Sampling, not proof.",
+         "5/C12", "trusted: the channel table (constant messages, format strings, Safe() arguments, telemetry keys, domains, issue links, tag keys are 'declared safe'; Op/Net/syscall names and user SafeDetailers are neutral); one known finding (Safe() tag values in transferred multi-cause branches) is listed in known_findings.json",
+         "deterministic simulation: taint-token tracking with per-delivery retention invariants"),
 }
 
 NOT_APPLICABLE = {
